@@ -111,6 +111,14 @@ def run_property(prop, tier, seed, replay):
             diffs += cd
             if not cd and not report["errors"]:
                 discharged += 1
+        if not proofs_ok and not diffs and not report["errors"]:
+            # a proof obligation broke and the property's own suites agree: search wider for a
+            # concrete input on which implementation and model differ
+            log("%s: searching for a failing input (proof obligation broken, suites agree)" % prop)
+            wide = {"seq": [(fl, 1024, None, 60, 40) for fl in ("mix", "quiet", "cas", "ttl", "counter", "flush", "malformed", "cuts", "wide")]
+                           + [("policy", 1024, 200, 30, 50), ("malformed", 100, None, 40, 30)],
+                    "conn": [("quiet", 1024, None, 20, 25), ("malformed", 100, None, 20, 25)]}
+            diffs = run_seq_suites(prop, wide, tier, seed + 1000, work, report)
         extra = cfg.get("extra")
         if extra:
             obligations += 1
